@@ -51,6 +51,14 @@ pub fn dispatch(ctx: &Ctx, rep: &mut Report) {
                 crate::onris::c05::run(ctx, rep);
             }
         },
+        "C06" => {
+            if fm {
+                crate::onfm::c06::run(ctx, rep);
+            }
+            if ris {
+                crate::onris::c06::run(ctx, rep);
+            }
+        },
         other => {
             eprintln!("unknown check {other}");
             std::process::exit(3);
